@@ -22,6 +22,19 @@ theorem published_mk_set (P : List Prom) (sl : Option PRef) (bc : Bcast) (T : Li
 
 theorem published_fixed (s s' : St) (u : Nat) (e : Err) : published s' (.fixed u e) = published s (.fixed u e) := rfl
 
+theorem born_get_set (P : List Prom) (p q : Nat) (pr pr' : Prom) (hp : P[p]? = some pr)
+    (hb : pr'.born = pr.born) :
+    ((P.set p pr')[q]?).map (fun x : Prom => x.born) = (P[q]?).map (fun x : Prom => x.born) := by
+  by_cases hqp : p = q
+  · subst hqp; rw [getElem?_set_self' P p pr pr' hp, hp]; simp [hb]
+  · rw [getElem?_set_ne' _ _ _ _ hqp]
+
+theorem notBorn_of_map (s s' : St) (q : Nat)
+    (h : (s'.proms[q]?).map (fun x : Prom => x.born) = (s.proms[q]?).map (fun x : Prom => x.born)) :
+    notBorn s' q = notBorn s q ∧ bornOf s' q = bornOf s q := by
+  unfold notBorn bornOf
+  cases h1 : s'.proms[q]? <;> cases h2 : s.proms[q]? <;> simp_all
+
 theorem step_inv_set (s : St) (e : Ev) (s' : St) (hi : Inv s) (hs : step s e = some s')
     (he : (∃ t, e = .swap t) ∨ (∃ t, e = .publish t)) : Inv s' := by
   rcases he with ⟨t, rfl⟩ | ⟨t, rfl⟩
@@ -43,16 +56,22 @@ theorem step_inv_set (s : St) (e : Ev) (s' : St) (hi : Inv s) (hs : step s e = s
       rename_i hw
       refine inv_local s t th _ hi ht hstab ?_
       simp only [ThOK]
-      obtain ⟨w, hw'⟩ := Option.isSome_iff_exists.mp hw
-      refine ⟨hv, w, by simp [winnerOf, hp, hw'], ?_⟩
-      intro h; subst h; exact hnw (by simp [winnerOf, hp, hw'])
+      refine ⟨hv, ?_⟩
+      rcases hw with hw | hw
+      · obtain ⟨w, hw'⟩ := Option.isSome_iff_exists.mp hw
+        refine Or.inl ⟨w, by simp [winnerOf, hp, hw'], ?_⟩
+        intro h; subst h; exact hnw (by simp [winnerOf, hp, hw'])
+      · exact Or.inr (by simp [bornOf, hp, hw])
     · -- this call wins
       rename_i hw
-      have hwn : pr.winner = none := by simpa using hw
+      have hwn : pr.winner = none := (by simpa using hw : pr.winner = none ∧ pr.born = false).1
+      have hbf : pr.born = false := (by simpa using hw : pr.winner = none ∧ pr.born = false).2
       have hres : pr.res = none := by
         cases hr : pr.res with
         | none => rfl
-        | some x => have := ((hi.pr p pr hp).1 x.1 x.2 (by rw [hr])).1; rw [hwn] at this; cases this
+        | some x => have := ((hi.pr p pr hp).1 x.1 x.2 (by rw [hr]) hbf).1; rw [hwn] at this; cases this
+      have hbm : ∀ q, (((setTs s t th (.setWon p v e)).proms.set p { pr with winner := some t })[q]?).map (fun x : Prom => x.born) =
+          (s.proms[q]?).map (fun x : Prom => x.born) := fun q => born_get_set s.proms p q pr _ hp rfl
       have hstab' : Stable th.ts (.setWon p v e) := by
         rw [hts]; exact stable_of_plain _ _ (by simp) (by simp) (by simp) (by simp) (by simp)
       have hpl' : p < s.proms.length := lt_of_getElem? hp
@@ -60,7 +79,9 @@ theorem step_inv_set (s : St) (e : Ev) (s' : St) (hi : Inv s) (hs : step s e = s
       have F : ∀ u, u ≠ t → Frame s { setTs s t th (.setWon p v e) with
           proms := s.proms.set p { pr with winner := some t } } u := by
         intro u hut
-        refine ⟨by simp [setTs], ?_, ?_, ?_, ?_, Nat.le_refl _, fun _ h => h, fun _ _ h => ⟨h, rfl⟩, ?_⟩
+        refine ⟨by simp [setTs], fun q h => by rw [(notBorn_of_map s _ q (hbm q)).1]; exact h,
+          fun q h => by rw [(notBorn_of_map s _ q (hbm q)).2]; exact h,
+          ?_, ?_, ?_, ?_, Nat.le_refl _, fun _ h => h, fun _ _ h => ⟨h, rfl⟩, ?_⟩
         · intro q w hq
           by_cases hqp : q = p
           · subst hqp; simp [winnerOf, hp, hwn] at hq
@@ -83,7 +104,8 @@ theorem step_inv_set (s : St) (e : Ev) (s' : St) (hi : Inv s) (hs : step s e = s
             rw [published_mk_set _ _ _ _ _ _ hpl', published_plain_eq s q pr hp]
           · simp only [setTs]; rw [published_set_ne s p q _ _ hqp]
         · intro r hr
-          exact refOK_set s t th _ ht hstab' _ _ _ (by simp) r hr
+          exact refOK_set s t th _ ht hstab' _ _ _
+            (fun q h => by rw [(notBorn_of_map s _ q (hbm q)).1]; exact h) r hr
       refine ⟨hi.bcwf, ?_, ?_, ?_⟩
       · intro u x hu
         simp only [setTs] at hu
@@ -94,12 +116,13 @@ theorem step_inv_set (s : St) (e : Ev) (s' : St) (hi : Inv s) (hs : step s e = s
       · intro q qr hq
         simp only [setTs] at hq
         rcases getElem?_set_cases s.proms p q _ qr hq with ⟨rfl, rfl⟩ | ⟨_, hx⟩
-        · refine ⟨by intro v' e' h; simp [hres] at h, ?_⟩
+        · refine ⟨by intro v' e' h; simp [hres] at h, by intro h; simp [hbf] at h, ?_⟩
           intro w hw; simp at hw; subst hw
           exact ⟨{ th with ts := .setWon q v e }, by simp [setTs, lt_of_getElem? ht], Or.inl ⟨e, by simp [hv]⟩⟩
         · exact promOK_set s t th _ ht hstab' _ _ _ q qr (hi.pr q qr hx)
       · intro r hr
-        exact refOK_set s t th _ ht hstab' _ _ _ (by simp) r (hi.slot r hr)
+        exact refOK_set s t th _ ht hstab' _ _ _
+          (fun q h => by rw [(notBorn_of_map s _ q (hbm q)).1]; exact h) r (hi.slot r hr)
   · -- publish
     simp only [step] at hs
     split at hs <;> try simp at hs
@@ -114,6 +137,12 @@ theorem step_inv_set (s : St) (e : Ev) (s' : St) (hi : Inv s) (hs : step s e = s
     obtain ⟨hv, hw, hnp⟩ := hok
     have hpl' : p < s.proms.length := lt_of_getElem? hp
     have hwp : pr.winner = some t := by simpa [winnerOf, hp] using hw
+    have hbf : pr.born = false := by
+      cases hb : pr.born with
+      | false => rfl
+      | true => have := ((hi.pr p pr hp).2.1 hb).1; rw [hwp] at this; cases this
+    have hbm : ∀ q, (((setTs s t th (.setRet p v e true)).proms.set p { pr with res := some (v, e) })[q]?).map (fun x : Prom => x.born) =
+        (s.proms[q]?).map (fun x : Prom => x.born) := fun q => born_get_set s.proms p q pr _ hp rfl
     have hstab : Stable th.ts (.setRet p v e true) := by
       rw [hts]
       constructor
@@ -124,7 +153,9 @@ theorem step_inv_set (s : St) (e : Ev) (s' : St) (hi : Inv s) (hs : step s e = s
     have F : ∀ u, u ≠ t → Frame s { setTs s t th (.setRet p v e true) with
         proms := s.proms.set p { pr with res := some (v, e) } } u := by
       intro u hut
-      refine ⟨by simp [setTs], ?_, ?_, ?_, ?_, Nat.le_refl _, fun _ h => h, fun _ _ h => ⟨h, rfl⟩, ?_⟩
+      refine ⟨by simp [setTs], fun q h => by rw [(notBorn_of_map s _ q (hbm q)).1]; exact h,
+        fun q h => by rw [(notBorn_of_map s _ q (hbm q)).2]; exact h,
+        ?_, ?_, ?_, ?_, Nat.le_refl _, fun _ h => h, fun _ _ h => ⟨h, rfl⟩, ?_⟩
       · intro q w hq
         by_cases hqp : q = p
         · subst hqp; simp [winnerOf, hp] at hq; simp [winnerOf, setTs, hpl', hq]
@@ -145,7 +176,8 @@ theorem step_inv_set (s : St) (e : Ev) (s' : St) (hi : Inv s) (hs : step s e = s
         · subst hqp; rw [hw] at hq; cases hq; exact absurd rfl hut
         · simp only [setTs]; rw [published_set_ne s p q _ _ hqp]
       · intro r hr
-        exact refOK_set s t th _ ht hstab _ _ _ (by simp) r hr
+        exact refOK_set s t th _ ht hstab _ _ _
+          (fun q h => by rw [(notBorn_of_map s _ q (hbm q)).1]; exact h) r hr
     refine ⟨hi.bcwf, ?_, ?_, ?_⟩
     · intro u x hu
       simp only [setTs] at hu
@@ -156,8 +188,8 @@ theorem step_inv_set (s : St) (e : Ev) (s' : St) (hi : Inv s) (hs : step s e = s
     · intro q qr hq
       simp only [setTs] at hq
       rcases getElem?_set_cases s.proms p q _ qr hq with ⟨rfl, rfl⟩ | ⟨_, hx⟩
-      · refine ⟨?_, ?_⟩
-        · intro v' e' h; simp at h
+      · refine ⟨?_, by intro h; simp [hbf] at h, ?_⟩
+        · intro v' e' h _; simp at h
           refine ⟨?_, by omega⟩
           show pr.winner = some (v' - 1)
           rw [hwp, ← h.1, hv]; simp
@@ -165,7 +197,8 @@ theorem step_inv_set (s : St) (e : Ev) (s' : St) (hi : Inv s) (hs : step s e = s
           exact ⟨{ th with ts := .setRet q v e true }, by simp [setTs, lt_of_getElem? ht], Or.inr (Or.inl ⟨e, by simp [hv]⟩)⟩
       · exact promOK_set s t th _ ht hstab _ _ _ q qr (hi.pr q qr hx)
     · intro r hr
-      exact refOK_set s t th _ ht hstab _ _ _ (by simp) r (hi.slot r hr)
+      exact refOK_set s t th _ ht hstab _ _ _
+        (fun q h => by rw [(notBorn_of_map s _ q (hbm q)).1]; exact h) r (hi.slot r hr)
 
 end UtilModel.Promise
 
@@ -182,11 +215,22 @@ theorem published_proms_append (s : St) (x : Prom) (r : PRef) (y : Nat × Err) (
     | some pr => rw [getElem?_snoc_left _ _ _ _ hp]; simpa [hp] using h
   | fixed u e => exact h
 
-theorem step_inv_newp (s : St) (p : Nat) (s' : St) (hi : Inv s) (hs : step s (.newp p) = some s') : Inv s' := by
-  simp only [step] at hs; split at hs <;> simp at hs; subst hs
-  have F : ∀ u, Frame s { s with proms := s.proms ++ [{}] } u := by
+theorem born_proms_append (s : St) (x : Prom) (q : Nat) :
+    (notBorn s q = true → notBorn { s with proms := s.proms ++ [x] } q = true) ∧
+    (bornOf s q = true → bornOf { s with proms := s.proms ++ [x] } q = true) := by
+  unfold notBorn bornOf
+  cases hp : s.proms[q]? with
+  | none => simp
+  | some pr => simp only; rw [getElem?_snoc_left _ _ _ _ hp]; simp
+
+/-- a new promise (unresolved, or born resolved) is appended to the table -/
+theorem inv_proms_append (s : St) (x : Prom) (hi : Inv s) (hw : x.winner = none)
+    (hx1 : ∀ v e, x.res = some (v, e) → x.born = true)
+    (hx2 : x.born = true → ∃ e, x.res = some (0, e)) : Inv { s with proms := s.proms ++ [x] } := by
+  have F : ∀ u, Frame s { s with proms := s.proms ++ [x] } u := by
     intro u
-    refine ⟨by simp, ?_, ?_, fun r x h => published_proms_append s _ r x h, ?_, Nat.le_refl _, fun _ h => h,
+    refine ⟨by simp, fun q => (born_proms_append s x q).1, fun q => (born_proms_append s x q).2,
+      ?_, ?_, fun r y h => published_proms_append s _ r y h, ?_, Nat.le_refl _, fun _ h => h,
       fun _ _ h => ⟨h, rfl⟩, ?_⟩
     · intro q w hq
       simp only [winnerOf] at hq ⊢
@@ -195,12 +239,12 @@ theorem step_inv_newp (s : St) (p : Nat) (s' : St) (hi : Inv s) (hs : step s (.n
       | some pr => rw [getElem?_snoc_left _ _ _ _ hp]; simpa [hp] using hq
     · intro q hq
       simp only [winnerOf] at hq ⊢
-      cases hp : (s.proms ++ [({} : Prom)])[q]? with
+      cases hp : (s.proms ++ [x])[q]? with
       | none => simp [hp] at hq
       | some pr =>
         rcases getElem?_snoc_cases _ _ _ _ hp with ⟨_, hx⟩ | ⟨_, rfl⟩
         · simpa [hp, hx] using hq
-        · simp [hp] at hq
+        · simp [hp, hw] at hq
     · intro q hq
       simp only [winnerOf] at hq
       cases hp : s.proms[q]? with
@@ -208,14 +252,25 @@ theorem step_inv_newp (s : St) (p : Nat) (s' : St) (hi : Inv s) (hs : step s (.n
       | some pr => simp only [published]; rw [getElem?_snoc_left _ _ _ _ hp, hp]
     · intro r hr
       cases r with
-      | plain q => simp only [refOK, List.length_append, List.length_singleton] at hr ⊢; omega
+      | plain q => exact (born_proms_append s x q).1 hr
       | fixed w e => exact hr
-  refine ⟨hi.bcwf, fun u x hu => thOK_frame (F u) x (hi.th u x hu), ?_, fun r hr => (F 0).ref r (hi.slot r hr)⟩
+  refine ⟨hi.bcwf, fun u y hu => thOK_frame (F u) y (hi.th u y hu), ?_, fun r hr => (F 0).ref r (hi.slot r hr)⟩
   intro q qr hq
   simp only at hq
   rcases getElem?_snoc_cases _ _ _ _ hq with ⟨_, hx⟩ | ⟨_, rfl⟩
   · exact hi.pr q qr hx
-  · exact ⟨by intro v e h; simp at h, by intro w h; simp at h⟩
+  · refine ⟨?_, fun hb => ⟨hw, hx2 hb⟩, by intro w h; rw [hw] at h; cases h⟩
+    intro v e h hb
+    rw [hx1 v e h] at hb; cases hb
+
+theorem step_inv_newp (s : St) (p : Nat) (s' : St) (hi : Inv s) (hs : step s (.newp p) = some s') : Inv s' := by
+  simp only [step] at hs; split at hs <;> simp at hs; subst hs
+  exact inv_proms_append s {} hi rfl (by intro v e h; cases h) (by intro h; cases h)
+
+theorem step_inv_newpe (s : St) (p : Nat) (e : Err) (s' : St) (hi : Inv s)
+    (hs : step s (.newpe p e) = some s') : Inv s' := by
+  simp only [step] at hs; split at hs <;> simp at hs; subst hs
+  exact inv_proms_append s _ hi rfl (by intro v e' h; rfl) (by intro _; exact ⟨e, rfl⟩)
 
 /-- after a broadcast every allocated channel is closed -/
 theorem frame_broadcast (s : St) (t : Nat) (th th' : Th) (ht : s.th[t]? = some th)
@@ -224,6 +279,8 @@ theorem frame_broadcast (s : St) (t : Nat) (th th' : Th) (ht : s.th[t]? = some t
   obtain ⟨_, b2, _, b4, b5⟩ := Bcast.broadcast_spec s.bc
   exact {
     plen := Nat.le_refl _
+    nb := fun _ h => h
+    bn := fun _ h => h
     win := fun _ _ h => h
     winU := fun _ h => h
     pub := fun r x h => by cases r <;> exact h
@@ -231,7 +288,7 @@ theorem frame_broadcast (s : St) (t : Nat) (th th' : Th) (ht : s.th[t]? = some t
     bnext := by simp [b2]
     bclosed := fun c h => b5 c h
     bopen := fun c hc ho => by rw [b4 c hc] at ho; cases ho
-    ref := fun r h => refOK_set s t th th' ht hst s.proms slot s.bc.broadcast (Nat.le_refl _) r h }
+    ref := fun r h => refOK_set s t th th' ht hst s.proms slot s.bc.broadcast (fun _ h => h) r h }
 
 theorem step_inv_cw (s : St) (t : Nat) (s' : St) (hi : Inv s) (hs : step s (.cWCS t) = some s') : Inv s' := by
   simp only [step] at hs
@@ -292,6 +349,8 @@ theorem step_inv_sample (s : St) (t : Nat) (s' : St) (hi : Inv s) (hs : step s (
     intro th' hst u
     exact {
       plen := Nat.le_refl _
+      nb := fun _ h => h
+      bn := fun _ h => h
       win := fun _ _ h => h
       winU := fun _ h => h
       pub := fun r x h => by cases r <;> exact h
@@ -305,7 +364,7 @@ theorem step_inv_sample (s : St) (t : Nat) (s' : St) (hi : Inv s) (hs : step s (
           | false => rfl
           | true => exact absurd hcn (g6 c hcl)
         · rw [← g4 c hcn]; exact ho
-      ref := fun r h => refOK_set s t th th' ht hst s.proms s.slot s.bc.getWaitCh.1 (Nat.le_refl _) r h }
+      ref := fun r h => refOK_set s t th th' ht hst s.proms s.slot s.bc.getWaitCh.1 (fun _ h => h) r h }
   have hstab : ∀ x, Stable th.ts x := by
     intro x; rw [hts]; exact stable_of_plain _ _ (by simp) (by simp) (by simp) (by simp) (by simp)
   split at hs <;> simp at hs <;> subst hs
@@ -345,6 +404,8 @@ theorem fromRef_of_published (s : St) (r : PRef) (v : Nat) (e : Err) (h1 : refOK
 theorem step_inv (s : St) (e : Ev) (s' : St) (hi : Inv s) (hs : step s e = some s') : Inv s' := by
   cases e with
   | newp p => exact step_inv_newp s p s' hi hs
+  | newpe p e => exact step_inv_newpe s p e s' hi hs
+  | checkLike c ok => simp only [step] at hs; split at hs <;> simp at hs; subst hs; exact hi
   | swap t => exact step_inv_set s _ s' hi hs (Or.inl ⟨t, rfl⟩)
   | publish t => exact step_inv_set s _ s' hi hs (Or.inr ⟨t, rfl⟩)
   | cWCS t => exact step_inv_cw s t s' hi hs
@@ -362,7 +423,7 @@ theorem step_inv (s : St) (e : Ev) (s' : St) (hi : Inv s) (hs : step s e = some 
     | none => simp [hpp] at hw
     | some pr =>
       simp [hpp] at hw
-      obtain ⟨x, hx, _⟩ := (hi.pr p pr hpp).2 _ hw
+      obtain ⟨x, hx, _⟩ := (hi.pr p pr hpp).2.2 _ hw
       have := lt_of_getElem? hx; omega
   | invAwait t p k =>
     simp only [step] at hs; split at hs <;> simp at hs; subst hs
@@ -419,7 +480,7 @@ theorem step_inv (s : St) (e : Ev) (s' : St) (hi : Inv s) (hs : step s e = some 
       split at hs <;> simp at hs; subst hs
       rename_i v e hp
       exact inv_local s t th _ hi ht (hstab _)
-        (by simp only [ThOK]; exact Or.inl ⟨published_pos s hi _ v e hp, hp⟩)
+        (by simp only [ThOK]; exact Or.inl hp)
     | wait => simp at hs
   | retAwait t v e =>
     simp only [step] at hs
@@ -528,14 +589,14 @@ theorem step_inv (s : St) (e : Ev) (s' : St) (hi : Inv s) (hs : step s e = some 
       split at hs <;> simp at hs <;> subst hs
       · rename_i v hp
         exact inv_local s t th _ hi ht (hstab _)
-          (by simp only [ThOK]; exact Or.inl ⟨published_pos s hi _ v _ hp, fromRef_of_published s r v _ hr hp⟩)
+          (by simp only [ThOK]; exact Or.inl ⟨published_pos s hi _ v _ hr hp, fromRef_of_published s r v _ hr hp⟩)
       · rename_i v hp
-        have hv := published_pos s hi _ v _ hp
+        have hv := published_pos s hi _ v _ hr hp
         exact inv_local s t th _ hi ht (hstab _)
           (by simp only [ThOK]; exact ⟨hc, by intro h; omega, fun _ => fromRef_of_published s r v _ hr hp⟩)
       · rename_i v e _ _ hp
         exact inv_local s t th _ hi ht (hstab _)
-          (by simp only [ThOK]; exact Or.inl ⟨published_pos s hi _ v _ hp, fromRef_of_published s r v _ hr hp⟩)
+          (by simp only [ThOK]; exact Or.inl ⟨published_pos s hi _ v _ hr hp, fromRef_of_published s r v _ hr hp⟩)
     | usr => simp at hs
   | cChk1 t =>
     simp only [step] at hs
